@@ -20,6 +20,8 @@ def run(ctx):
     E.e5_find_rule_exact(ctx)
     E.e7_minimise_bookkeeping(ctx)
     E.e8_alias_discipline(ctx)
+    E.e9_every_key_is_filed(ctx)
+    E.e10_memo_keyed_by_arguments(ctx)
     from ..engines import storekeys as SK
     SK.w4_pack_iteration(ctx)
     ctx.floor("E1", 5)
@@ -29,3 +31,5 @@ def run(ctx):
     ctx.floor("E5", 4)
     ctx.floor("E7", 3)
     ctx.floor("E8", 1)
+    ctx.floor("E9", 1)
+    ctx.floor("E10", 7)
